@@ -65,7 +65,7 @@ func TestVerifC09(t *testing.T) {
 	res := vrep.New("C09", p)
 	defer res.Guard()
 	base, _ := vrep.Scratch("c09")
-	res.Rule = "E3: (a) the span of a freshly opened file (real rotate1, metadata of the created file) for every day of 1990..2049 (quick: 2022..2027) x 7 week-end settings x {00:00, 00:00+1ns, 12:00, 23:59:59.999999999}; (b) 14 malformed/odd settings x every day of 2023-12-30..2024-03-02; (c) real open, naming, metadata, Add, rotation exactly at the recorded end and 1ns before, on every day of 2023-12-01..2025-03-31 (quick: every day of 5 months) x 7 settings; classes = (month, weekday distance) and setting classes"
+	res.Rule = "E3: (a) the span of a freshly opened file (real rotate1, metadata of the created file) for every day of 1990..2049 (quick: 2022..2027) x 7 week-end settings x {00:00, 00:00+1ns, 12:00, 23:59:59.999999999}, plus a clock that crosses midnight at its 2nd..5th reading inside one open (14 days x 7 settings); (b) 14 malformed/odd settings x every day of 2023-12-30..2024-03-02; (c) real open, naming, metadata, Add, rotation exactly at the recorded end and 1ns before, on every day of 2023-12-01..2025-03-31 (quick: every day of 5 months) x 7 settings; classes = (month, weekday distance) and setting classes"
 	vos.Poison = false
 	w := zzvNewWorld(base, "")
 	defer w.teardown()
@@ -123,6 +123,41 @@ func TestVerifC09(t *testing.T) {
 					}
 				}
 				res.Class("span/system-clock-zones")
+			}
+		}
+		CounterTime = saved
+	}
+	// (a5) a clock that advances between readings and crosses midnight inside one open: whichever reading the
+	// library takes for the file's begin, the whole span must be the documented one for that same reading
+	// (begin and end computed from two different days would give a span that is a day short or a week long).
+	if p.Mine(3) {
+		saved := CounterTime
+		for wd := 0; wd < 7; wd++ {
+			os.WriteFile(wfile, []byte(fmt.Sprintf("%d\n", wd)), 0o666)
+			for day := time.Date(2024, 2, 24, 0, 0, 0, 0, time.UTC); day.Before(time.Date(2024, 3, 9, 0, 0, 0, 0, time.UTC)); day = day.AddDate(0, 0, 1) {
+				for firstAfter := 1; firstAfter <= 4; firstAfter++ { // the reading from which the clock shows the next day
+					var readings []time.Time
+					CounterTime = func() time.Time {
+						t := day.Add(24*time.Hour - time.Duration(firstAfter-len(readings)))
+						if len(readings) >= firstAfter {
+							t = day.Add(24*time.Hour + time.Duration(len(readings)-firstAfter))
+						}
+						readings = append(readings, t)
+						return t
+					}
+					b, e, err := zzvSpanNow()
+					res.Evaluations++
+					ok := false
+					for _, r := range readings {
+						if rb, re := ref.WeekSpan(r, time.Weekday(wd)); b.Equal(rb) && e.Equal(re) {
+							ok = true
+						}
+					}
+					if err != nil || !ok {
+						res.Violate("span-differs:clock-crosses-midnight", fmt.Sprintf("clock crossing midnight of %s at its reading #%d (of %d) with week-end day %d: span [%s, %s) err=%v is the documented span of none of the readings", day.Format("2006-01-02"), firstAfter+1, len(readings), wd, b.Format(time.RFC3339), e.Format(time.RFC3339), err), map[string]any{"day": day.Format("2006-01-02"), "weekend": wd, "firstAfter": firstAfter})
+					}
+				}
+				res.Class("span/clock-crosses-midnight")
 			}
 		}
 		CounterTime = saved
